@@ -125,6 +125,20 @@ def evaluate(ctx, cases):
                 a, b = t[col].values, p[col].values
                 if not all((u != u and v != v) or u == v for u, v in zip(a.tolist(), b.tolist())):
                     fail('burst feature / label column %s differs between the two runs' % col); break
+            if ok and c.get('pres') not in (None, 'array'):
+                # the shape stage called directly on the presented samples (the negate-then-rename step works on ITS argument): same shape columns
+                # as the full analysis, and the caller's samples are left as they were
+                from bycycle.features import compute_shape_features
+                xs = implutil.present(proto.hex2arr(c['sig']), c['pres'])
+                before = np.array(xs, dtype=float).copy()
+                try:
+                    ts = implutil.quiet(compute_shape_features, xs, c['fs'], tuple(c['f_range']), center_extrema='trough', find_extrema_kwargs=implutil.fe_kwargs(c['fk'], c['boundary'], None))
+                    if not np.array_equal(np.array(xs, dtype=float), before):
+                        fail('compute_shape_features(center_extrema=\'trough\') modified the caller\'s samples (%s)' % c['pres'])
+                    elif any(not ((ts[col].values == t[col].values) | (np.isnan(ts[col].values.astype(float)) & np.isnan(t[col].values.astype(float)))).all() for col in SHAPE):
+                        fail('compute_shape_features on the %s presentation differs from the shape columns of compute_features' % c['pres'])
+                except Exception as e:
+                    fail('compute_shape_features raised for the %s presentation although compute_features returned: %s' % (c['pres'], type(e).__name__))
             if ok and c.get('rs', True):
                 # the one-sided variants used when burst edges are re-evaluated (direction next / last) mirror as well
                 from bycycle.features.burst import compute_amp_consistency, compute_period_consistency
